@@ -129,6 +129,24 @@ ObserveFrom(bs, fin, acc) ==
 
 Observe(bs, fin) == ObserveFrom(bs, fin, <<>>)
 
+\* the same walk, but unknown-type frames are kept as [c |-> "UNKNOWN", type, len] (used to judge what an endpoint SENDS)
+RECURSIVE ObserveAllFrom(_,_,_)
+ObserveAllFrom(bs, fin, acc) ==
+    LET f == NextFrame(bs) IN
+    CASE f.st = "none" -> [items |-> acc, term |-> IF fin THEN "end" ELSE "more", codes |-> {}]
+      [] f.st = "partial" -> [items |-> acc, term |-> IF fin THEN "err" ELSE "more", codes |-> IF fin THEN {H3_FRAME_ERROR} ELSE {}]
+      [] f.st = "wt" -> [items |-> acc \o <<[c |-> "WT"]>>, term |-> "wt", codes |-> {}]
+      [] f.st = "data" ->
+            IF Len(f.rest) >= f.len
+            THEN ObserveAllFrom(SubSeq(f.rest, f.len + 1, Len(f.rest)), fin, acc \o <<[c |-> "DATA", len |-> f.len, got |-> SubSeq(f.rest, 1, f.len)]>>)
+            ELSE [items |-> acc \o <<[c |-> "DATA", len |-> f.len, got |-> f.rest]>>, term |-> IF fin THEN "err" ELSE "more", codes |-> IF fin THEN {H3_FRAME_ERROR} ELSE {}]
+      [] OTHER ->
+            LET it == FrameItem(f) IN
+            IF it.c = "ERR" THEN [items |-> acc, term |-> "err", codes |-> it.codes]
+            ELSE IF it.c = "SKIP" THEN ObserveAllFrom(f.rest, fin, acc \o <<[c |-> "UNKNOWN", type |-> f.type, len |-> Len(f.payload)]>>)
+            ELSE ObserveAllFrom(f.rest, fin, acc \o <<it>>)
+ObserveAll(bs, fin) == ObserveAllFrom(bs, fin, <<>>)
+
 (* ---- building frames (used by generators and by the reference sender model) ---------------------------- *)
 Frame(typeInt, payload) == EncodeInt(typeInt) \o EncodeInt(Len(payload)) \o payload
 \* explicit varint forms for type and length (n bytes each)
